@@ -1,3 +1,143 @@
 import Sheens.Tools
+import Sheens.Proofs.ToolsLemmas
 
-/-! Property C20 — theorems (in progress). -/
+/-!
+# Property C20 — analysis and graph renderings are faithful to the spec
+
+Over the structural model `Tools.analyze` / `Tools.render` (both renderers emit the same structure),
+for all spec graphs (node names distinct, as in a Go map).
+-/
+
+namespace Sheens.C20
+
+open Tools
+
+def Distinct (s : TSpec) : Prop := (s.map (·.1)).Nodup
+
+/-- Missing targets: exactly the non-variable branch targets that are not nodes. -/
+theorem missing_exact (s : TSpec) (t : String) :
+    t ∈ (analyze s).missing ↔
+      ∃ b ∈ allBranches s, b.target = t ∧ isTargetVar t = false ∧ hasNode s t = false := by
+  simp only [analyze, mem_dedupS, List.mem_filter, List.mem_map, Bool.and_eq_true,
+    Bool.not_eq_true']
+  constructor
+  · rintro ⟨⟨b, hb, rfl⟩, h1, h2⟩; exact ⟨b, hb, rfl, h1, h2⟩
+  · rintro ⟨b, hb, rfl, h1, h2⟩; exact ⟨⟨b, hb, rfl⟩, h1, h2⟩
+
+/-- Branch target variables: exactly the variable targets. -/
+theorem targetVars_exact (s : TSpec) (t : String) :
+    t ∈ (analyze s).targetVars ↔ ∃ b ∈ allBranches s, b.target = t ∧ isTargetVar t = true := by
+  simp only [analyze, mem_dedupS, List.mem_filter, List.mem_map]
+  constructor
+  · rintro ⟨⟨b, hb, rfl⟩, h1⟩; exact ⟨b, hb, rfl, h1⟩
+  · rintro ⟨b, hb, rfl, h1⟩; exact ⟨⟨b, hb, rfl⟩, h1⟩
+
+/-- Terminal nodes: exactly the nodes without branches. -/
+theorem terminal_exact (s : TSpec) (n : String) :
+    n ∈ (analyze s).terminal ↔ ∃ nd, (n, nd) ∈ s ∧ branchesOf nd = [] := by
+  simp only [analyze, List.mem_map, List.mem_filter, List.isEmpty_iff]
+  constructor
+  · rintro ⟨⟨n', nd⟩, ⟨hp, he⟩, rfl⟩; exact ⟨nd, hp, he⟩
+  · rintro ⟨nd, hp, he⟩; exact ⟨(n, nd), ⟨hp, he⟩, rfl⟩
+
+/-- Orphans: exactly the nodes no branch targets. -/
+theorem orphans_exact (s : TSpec) (n : String) :
+    n ∈ (analyze s).orphans ↔ (n ∈ s.map (·.1) ∧ ∀ b ∈ allBranches s, b.target ≠ n) := by
+  simp only [analyze, List.mem_filter, Bool.not_eq_true', List.contains_eq_mem,
+    decide_eq_false_iff_not, List.mem_map, not_exists, not_and]
+
+/-- The counts are those of the spec graph. -/
+theorem counts_exact (s : TSpec) :
+    (analyze s).nodeCount = s.length ∧
+    (analyze s).branches = (s.map (fun p => (branchesOf p.2).length)).sum ∧
+    (analyze s).actions = (s.filter (fun p => p.2.hasAction)).length ∧
+    (analyze s).guards = (s.map (fun p => ((branchesOf p.2).filter (·.hasGuard)).length)).sum := by
+  refine ⟨rfl, ?_, rfl, ?_⟩
+  · exact length_flatMap_sum s _
+  · show ((allBranches s).filter (·.hasGuard)).length = _
+    rw [allBranches, filter_flatMap', length_flatMap_sum]
+
+/-- Interpreters: those named by an action source or a guard source, or "default" when none is. -/
+theorem interpreters_exact (s : TSpec) (i : String) :
+    i ∈ (analyze s).interpreters ↔
+      ((∃ p ∈ s, p.2.actionInterp = some i) ∨ (∃ b ∈ allBranches s, b.guardInterp = some i)) ∨
+      ((∀ p ∈ s, p.2.actionInterp = none) ∧ (∀ b ∈ allBranches s, b.guardInterp = none) ∧ i = "default") := by
+  have hmem : ∀ j, j ∈ (s.filterMap (fun p => p.2.actionInterp)) ++ ((allBranches s).filterMap (·.guardInterp)) ↔
+      ((∃ p ∈ s, p.2.actionInterp = some j) ∨ (∃ b ∈ allBranches s, b.guardInterp = some j)) := by
+    intro j
+    simp only [List.mem_append, List.mem_filterMap]
+  show i ∈ (if ((s.filterMap (fun p => p.2.actionInterp)) ++ ((allBranches s).filterMap (·.guardInterp))).isEmpty
+      then ["default"] else dedupS _) ↔ _
+  generalize (s.filterMap (fun p => p.2.actionInterp)) ++ ((allBranches s).filterMap (·.guardInterp)) = interps at hmem
+  cases interps with
+  | nil =>
+    have hA : ∀ p ∈ s, p.2.actionInterp = none := by
+      intro p hp
+      cases h : p.2.actionInterp with
+      | none => rfl
+      | some j => exact absurd ((hmem j).mpr (Or.inl ⟨p, hp, h⟩)) (by simp)
+    have hG : ∀ b ∈ allBranches s, b.guardInterp = none := by
+      intro b hb
+      cases h : b.guardInterp with
+      | none => rfl
+      | some j => exact absurd ((hmem j).mpr (Or.inr ⟨b, hb, h⟩)) (by simp)
+    simp only [List.isEmpty_nil, if_true, List.mem_singleton]
+    constructor
+    · intro h; exact Or.inr ⟨hA, hG, h⟩
+    · rintro (h | ⟨_, _, h⟩)
+      · exact absurd ((hmem i).mpr h) (by simp)
+      · exact h
+  | cons j js =>
+    simp only [List.isEmpty_cons, Bool.false_eq_true, if_false, mem_dedupS]
+    rw [hmem]
+    constructor
+    · exact Or.inl
+    · rintro (h | ⟨hA, hG, _⟩)
+      · exact h
+      · exfalso
+        rcases (hmem j).mp List.mem_cons_self with ⟨p, hp, h⟩ | ⟨b, hb, h⟩
+        · rw [hA p hp] at h; cases h
+        · rw [hG b hb] at h; cases h
+
+/-- The renderings declare exactly the spec's nodes and the branch targets that are not nodes
+    (missing or variable targets) … -/
+theorem render_nodes_exact (s : TSpec) (n : String) :
+    n ∈ (render s).nodes ↔ (n ∈ s.map (·.1) ∨ ∃ b ∈ allBranches s, b.target = n) := by
+  rw [render_eq]
+  show n ∈ ((order s).foldl visit ([], [])).1 ↔ _
+  rw [foldl_visit_mem]
+  simp only [List.not_mem_nil, false_or, List.mem_map, mem_allBranches, mem_order]
+
+/-- … each exactly once. -/
+theorem render_nodes_once (s : TSpec) : (render s).nodes.Nodup := by
+  rw [render_eq]
+  exact foldl_visit_nodup _ _ List.nodup_nil
+
+/-- One edge per branch, in branch order: every node with a branch list contributes exactly the list
+    of its branch targets, and nothing else is drawn. -/
+theorem render_edges_exact (s : TSpec) (hd : Distinct s) (name : String) (ts : List String) :
+    (name, ts) ∈ (render s).edges ↔ ∃ nd bs, (name, nd) ∈ s ∧ nd.branches = some bs ∧ ts = bs.map (·.target) := by
+  have _ := hd   -- distinctness is not needed
+  rw [render_eq]
+  show (name, ts) ∈ ((order s).foldl visit ([], [])).2 ↔ _
+  rw [foldl_visit_snd, List.nil_append, List.mem_filterMap]
+  constructor
+  · rintro ⟨⟨n', nd⟩, hp, he⟩
+    rw [mem_order] at hp
+    unfold edgeOf at he
+    cases hb : nd.branches with
+    | none => simp [hb] at he
+    | some bs =>
+      simp only [hb, Option.map_some, Option.some.injEq, Prod.mk.injEq] at he
+      obtain ⟨rfl, rfl⟩ := he
+      exact ⟨nd, bs, hp, hb, rfl⟩
+  · rintro ⟨nd, bs, hp, hb, rfl⟩
+    exact ⟨(name, nd), (mem_order _ _).mpr hp, by simp [edgeOf, hb]⟩
+
+theorem render_edges_count (s : TSpec) :
+    (render s).edges.length = (s.filter (fun p => p.2.branches.isSome)).length := by
+  rw [render_eq]
+  show (((order s).foldl visit ([], [])).2).length = _
+  rw [foldl_visit_snd, List.nil_append, length_filterMap_edgeOf, length_filter_order]
+
+end Sheens.C20
